@@ -291,6 +291,11 @@ func CmdCheck(args []string) int {
 	}
 	// failing obligations -> known finding or violation
 	seenFinding := map[string]bool{}
+	seenViolation := map[string]bool{}
+	// paths on which the solver produced a model first: they are the ones a replay can use
+	sort.SliceStable(fails, func(i, j int) bool {
+		return fails[i].o.Ans.Result == "sat" && fails[j].o.Ans.Result != "sat"
+	})
 	for _, f := range fails {
 		o := f.o
 		if kf := matchFinding(findings, *prop, o.Name); kf != nil {
@@ -300,6 +305,11 @@ func CmdCheck(args []string) int {
 			}
 			continue
 		}
+		if seenViolation[o.Name] {
+			// the same clause failing on several paths is one violation
+			continue
+		}
+		seenViolation[o.Name] = true
 		rp := filepath.Join(replayDir, sanitize(*prop+"_"+o.Name)+".json")
 		rec := map[string]interface{}{"property": *prop, "obligation": o.Name, "kind": o.Kind, "path": o.Path, "goal": o.Goal, "detail": o.Where,
 			"solver_answer": o.Ans.Result, "solver": o.Ans.Solver, "solver_output": trunc(o.Ans.Raw, 4000), "model": trunc(o.Ans.Model, 20000),
